@@ -44,6 +44,8 @@ let parse_op (t : string list) : op =
   | ["V"; dt] -> OpAdvance (ioz dt)
   | ["X"; j] -> OpCancel (ionat j)
   | ["F"; f] -> OpFactory (f <> "0")
+  | ["G"; g] -> OpGate (g <> "0")
+  | ["Z"; k] -> OpResume (ionat k)
   | _ -> raise (Bad ("op: " ^ String.concat " " t))
 
 let parse_picker (t : string list) : picker * string list =
@@ -74,6 +76,7 @@ let parse_ret (t : string list) : ret * string list =
   | "tf" :: r -> (RTransient, r)
   | "keyerr" :: r -> (RKeyErr, r)
   | "blocked" :: r -> (RBlocked, r)
+  | "parked" :: r -> (RParked, r)
   | "panic" :: r -> (RPanic, r)
   | "stuck" :: r -> (RStuck, r)
   | "nilsc" :: r -> (RPanic, r)
@@ -177,15 +180,68 @@ let class_name = function
   | DStreams -> "streams" | DSlotAff -> "slotaff" | DRefresh -> "refresh" | DRr -> "rr" | DPicker -> "picker"
   | DNow -> "now" | DLock -> "lock" | DEnded -> "ended" | DBadOp -> "badop"
 
-let monitor_table : (string * (config option -> obs -> event list -> bool)) list = []
+let monitor_table : (string * (config option -> obs -> event list -> bool)) list = [
+  ("c01", c01_ok); ("c02", c02_ok); ("c03", c03_ok); ("c04", c04_ok); ("c05", c05_ok);
+  ("c06", c06_ok); ("c07", c07_ok); ("c08", c08_ok); ("c09", c09_ok); ("c20", c20_ok) ]
 
 let first_fail (ok : event list -> bool) (evs : event list) : int =
   let n = List.length evs in
   let rec go k = if k > n then n else if not (ok (take k evs)) then k - 1 else go (k + 1) in
   go 0
 
+(* ---- Coq term printers (in-Coq cross-check) ---- *)
+let cz x = "(" ^ string_of_z x ^ ")%Z"
+let cn x = string_of_int (int_of_n x) ^ "%N"
+let cnat x = string_of_int (int_of_nat x) ^ "%nat"
+let clist f l = "[" ^ String.concat "; " (List.map f l) ^ "]"
+let cbool b = if b then "true" else "false"
+let ccs = function Idle -> "Idle" | Connecting -> "Connecting" | Ready -> "Ready"
+  | TransientFailure -> "TransientFailure" | Shutdown -> "Shutdown"
+let copt f = function None -> "None" | Some x -> "(Some " ^ f x ^ ")"
+let cpicker = function PErr b -> "(PErr " ^ cbool b ^ ")" | PSnap l -> "(PSnap " ^ clist cnat l ^ ")"
+let ccmd = function BOUND -> "BOUND" | BIND -> "BIND" | UNBIND -> "UNBIND"
+let cop = function
+  | OpResolver (a, c) -> Printf.sprintf "OpResolver %s %s" (cn a)
+      (match c with CfgNil -> "CfgNil" | CfgWrongType -> "CfgWrongType" | CfgVal -> "CfgVal")
+  | OpResolverErr -> "OpResolverErr"
+  | OpConnState (sc, st) -> Printf.sprintf "OpConnState %s %s" (cn sc) (ccs st)
+  | OpPick (pi, m, hc, ks, dl, cx) -> Printf.sprintf "OpPick %s %s %s %s %s %s" (cnat pi) (cn m) (cbool hc) (clist cn ks) (copt cz dl) (cbool cx)
+  | OpDone (j, oc, ks) -> Printf.sprintf "OpDone %s %s %s" (cnat j)
+      (match oc with DOk -> "DOk" | DErr -> "DErr" | DDeadlineClient -> "DDeadlineClient" | DDeadlineOther -> "DDeadlineOther") (clist cn ks)
+  | OpAdvance d -> "OpAdvance " ^ cz d
+  | OpCancel j -> "OpCancel " ^ cnat j
+  | OpFactory f -> "OpFactory " ^ cbool f
+  | OpGate g -> "OpGate " ^ cbool g
+  | OpResume k -> "OpResume " ^ cnat k
+let cout = function
+  | ONewSC (n, a) -> Printf.sprintf "ONewSC %s %s" (cn n) (cn a)
+  | ONewSCFail a -> "ONewSCFail " ^ cn a
+  | OConnect n -> "OConnect " ^ cn n
+  | OUpdAddr (n, a) -> Printf.sprintf "OUpdAddr %s %s" (cn n) (cn a)
+  | ORemove n -> "ORemove " ^ cn n
+  | OUpdateState (st, p) -> Printf.sprintf "OUpdateState %s %s" (ccs st) (cpicker p)
+let cret = function
+  | RNone -> "RNone" | RCfgErr -> "RCfgErr" | RPicked n -> "(RPicked " ^ cn n ^ ")" | RNoSubConn -> "RNoSubConn"
+  | RTransient -> "RTransient" | RKeyErr -> "RKeyErr" | RBlocked -> "RBlocked" | RParked -> "RParked" | RPanic -> "RPanic"
+  | RStuck -> "RStuck" | RBadOp -> "RBadOp"
+let cpair f g (a, b) = "(" ^ f a ^ ", " ^ g b ^ ")"
+let cslot s = Printf.sprintf "mkSlot %s %s %s %s %s %s %s" (cn s.sl_conn) (cz s.sl_aff) (cz s.sl_streams) (cz s.sl_last)
+    (cz s.sl_de) (cbool s.sl_refreshing) (cz s.sl_rcnt)
+let cobs o = Printf.sprintf "(mkObs %s %s %s %s %s %s %s %s %s %s %s %s %s %s %s %s %s %s)" (cbool o.o_cfgset) (cn o.o_addrs)
+    (cz o.o_nready) (cz o.o_nconn) (cz o.o_ntf) (ccs o.o_state) (clist (cpair cn cn) o.o_aff) (clist (cpair cn cn) o.o_fb)
+    (clist (cpair cn ccs) o.o_st) (clist (cpair cn cnat) o.o_refs) (clist cslot o.o_slots) (cz o.o_rr)
+    (clist (cpair cn cnat) o.o_refr) (cbool o.o_undet) (cpicker o.o_picker) (cnat o.o_npub) (cz o.o_now) (cbool o.o_mufree)
+let cev e = Printf.sprintf "mkEvent (%s) %s %s %s %s" (cop e.ev_op) (clist cout e.ev_out) (cret e.ev_ret)
+    (clist (cpair cnat cn) e.ev_ub) (copt cobs e.ev_obs)
+let cmcfg (k, m) = Printf.sprintf "(%s, mkMcfg %s %s)" (cn k) (ccmd m.m_cmd) (cbool m.m_locok)
+let cconfig c = Printf.sprintf "(mkConfig %s %s %s %s %s %s %s %s)" (cz c.c_min) (cz c.c_max) (cz c.c_wm) (cbool c.c_fallback)
+    (cz c.c_ums) (cz c.c_ucalls) (cbool c.c_rr) (clist cmcfg c.c_methods)
+
 let () =
   let path = Sys.argv.(1) in
+  let coq_out = if Array.length Sys.argv > 3 && Sys.argv.(2) = "--coq" then Some (open_out Sys.argv.(3)) else None in
+  let coq_max = if Array.length Sys.argv > 4 then int_of_string Sys.argv.(4) else 100 in
+  let coq_cases = ref [] in
   let hs = parse_file path in
   List.iteri (fun i h ->
     let nev = List.length h.h_events in
@@ -207,5 +263,22 @@ let () =
             Printf.sprintf "m:%s %d %d" name (if ok then 1 else 0) idx) monitor_table in
     Printf.printf "hist %d line %d nev %d acc %s %s\n" i h.h_line nev
       (match acc with None -> "ok" | Some (k, c) -> Printf.sprintf "div %d %s" k c)
-      (String.concat " " mons)
-  ) hs
+      (String.concat " " mons);
+    (match coq_out, h.h_obs with
+     | Some _, Some o0 when List.length !coq_cases < coq_max && nev <= 40 ->
+         let verdicts = List.map (fun (_, f) -> f h.h_raw o0 h.h_events) monitor_table in
+         coq_cases := (h, o0, acc = None, verdicts) :: !coq_cases
+     | _ -> ())
+  ) hs;
+  match coq_out with
+  | None -> ()
+  | Some oc ->
+      output_string oc "From GV Require Import Pool.Model Pool.Observe Pool.Monitors.\nOpen Scope Z_scope.\n";
+      output_string oc "Definition case_ok (raw : option config) (o0 : obs) (tr : list event) (acc : bool) (vs : list bool) : bool :=\n  Bool.eqb (match accept raw init_bal 1%nat tr with None => true | Some _ => false end) acc &&\n  list_eqb Bool.eqb (map (fun pid => monitor pid raw o0 tr) [P01; P02; P03; P04; P05; P06; P07; P08; P09; P20]) vs.\n";
+      List.iteri (fun i (h, o0, acc, vs) ->
+        Printf.fprintf oc "Definition case_%d : bool := case_ok %s %s %s %s %s.\n" i
+          (copt cconfig h.h_raw) (cobs o0) (clist cev h.h_events) (cbool acc) (clist cbool vs)) (List.rev !coq_cases);
+      Printf.fprintf oc "Definition all_cases : list bool := %s.\n"
+        (clist (fun i -> "case_" ^ string_of_int i) (List.init (List.length !coq_cases) (fun i -> i)));
+      output_string oc "Definition mismatches : list nat := Eval vm_compute in\n  map fst (filter (fun p => negb (snd p)) (combine (seq 0 (length all_cases)) all_cases)).\nPrint mismatches.\n";
+      close_out oc
